@@ -1684,6 +1684,32 @@ func ruleP19Persist(p *Prog, r *Report) {
 		key := fmt.Sprintf("return#%d", i)
 		r.check(okReturn(f, ret, 0), rule, key, p.instrPos(ret), "reports a failure, or success is the result of the write", "ManipulateBookmarks can report success without having written the database")
 	}
+	// the folder the database lives in is created together with its parents: on a fresh system
+	// (no ~/.config yet) the very first `bookmarks set` must persist
+	nDir := 0
+	for _, g := range p.srcFns {
+		if pkgPathOfFn(g) != modPath+"/klog/app" {
+			continue
+		}
+		eachInstr(g, func(in ssa.Instruction) {
+			c, ok := in.(ssa.CallInstruction)
+			if !ok || rawStaticCallee(c) == nil {
+				return
+			}
+			switch rawStaticCallee(c).String() {
+			case "os.MkdirAll":
+				nDir++
+			case "os.Mkdir":
+				nDir++
+				r.bad(rule, "folder:"+fnName(outermost(g)), p.instrPos(c), "the configuration folder is created with os.Mkdir, which fails when its parent does not exist yet: on a fresh system the first `bookmarks set` reports an error and nothing is persisted")
+			}
+		})
+	}
+	if nDir == 0 {
+		r.undecided(rule, "folder", "-", "no place found where package app creates the configuration folder")
+	} else {
+		r.ok(rule, "folder", "-", "the configuration folder is created with its parents (os.MkdirAll, %d site(s))", nDir)
+	}
 }
 
 func staticCalleeOrNil(c ssa.CallInstruction) *ssa.Function {
@@ -2930,6 +2956,11 @@ func ruleP10Span(p *Prog, r *Report) {
 			ord[fnName(f)+code]++
 			key := fmt.Sprintf("%s:%s#%d", fnName(f), code, ord[fnName(f)+code])
 			pos, length := polyX(c.Call.Args[3]), polyX(c.Call.Args[4])
+			// reading positions of different moments are only ever subtracted later − earlier (what
+			// was consumed in between); "earlier − later" is a negative distance
+			if early, late := cursorOrderViolation(c.Call.Args[4]); early != nil {
+				r.bad(rule, key+":cursor-order", p.instrPos(c), "the length of the error contains the reading position of an earlier moment (%s) minus that of a later one (%s) — the cursor moved in between: the length comes out too short by what was skipped, down to negative values, which no renderer can display", p.instrPos(early), p.instrPos(late))
+			}
 			// a length is measured — one token's or line's own length, or the distance between two
 			// reading positions — not added up from the lengths of several tokens: the sum assumes
 			// how the tokens are separated (`15:00-14:00` against `15:00 - 14:00`)
@@ -3570,3 +3601,90 @@ func dateFieldBase(v ssa.Value) ssa.Value {
 }
 
 const blankSeparatorsFinding = "IsBlank knows space and tab only: a line consisting of other space separators (U+00A0, U+2003, U+3000 …) is a blank line by the specification but a significant line for the parser, so a conforming text such as \"2020-01-01\\n\\u00a0\\n2020-01-02\\n\" is rejected"
+
+// cursorOrderViolation: expression v (sums and differences) contains, for one Parseable, the
+// PointerPosition read at an earlier moment with a positive sign and the one read at a later
+// moment with a negative sign, a cursor move (Advance, SkipWhile) lying between the two reads.
+func cursorOrderViolation(v ssa.Value) (early, late ssa.Instruction) {
+	type ppLoad struct {
+		in   *ssa.UnOp
+		base ssa.Value
+		sign int
+	}
+	var loads []ppLoad
+	seen := map[ssa.Value]bool{}
+	var walk func(x ssa.Value, sign int, depth int)
+	walk = func(x ssa.Value, sign int, depth int) {
+		if x == nil || depth > 10 || seen[x] {
+			return
+		}
+		seen[x] = true
+		switch y := x.(type) {
+		case *ssa.BinOp:
+			switch y.Op {
+			case token.ADD:
+				walk(y.X, sign, depth+1)
+				walk(y.Y, sign, depth+1)
+			case token.SUB:
+				walk(y.X, sign, depth+1)
+				walk(y.Y, -sign, depth+1)
+			}
+		case *ssa.UnOp:
+			if y.Op == token.MUL {
+				if fa, ok := y.X.(*ssa.FieldAddr); ok && fieldName(fa) == "PointerPosition" {
+					loads = append(loads, ppLoad{y, strip(fa.X), sign})
+					return
+				}
+				// a local variable: the value stored (single assignment)
+				if cell := cellOf(y.X); cell != nil {
+					if sts := storesTo(cell); len(sts) == 1 {
+						walk(sts[0].val, sign, depth+1)
+					}
+				}
+			} else if y.Op == token.SUB {
+				walk(y.X, -sign, depth+1)
+			}
+		case *ssa.Phi:
+			for _, e := range y.Edges {
+				walk(e, sign, depth+1)
+			}
+		case *ssa.Convert:
+			walk(y.X, sign, depth+1)
+		}
+	}
+	walk(v, 1, 0)
+	before := func(a, b ssa.Instruction) bool {
+		if a.Block() == b.Block() {
+			return instrIndex(a) < instrIndex(b)
+		}
+		return a.Block().Dominates(b.Block())
+	}
+	for _, a := range loads {
+		for _, b := range loads {
+			if a.in == b.in || a.base != b.base || !(a.sign > 0 && b.sign < 0) || !before(a.in, b.in) || a.in.Parent() != b.in.Parent() {
+				continue
+			}
+			// a cursor move on the same Parseable between the two reads
+			moved := false
+			for _, blk := range a.in.Parent().Blocks {
+				for _, in := range blk.Instrs {
+					c, ok := in.(ssa.CallInstruction)
+					if !ok {
+						continue
+					}
+					nm, recv, _, _ := methodCallOf(c)
+					if (nm != "Advance" && nm != "SkipWhile") || recv == nil || strip(recv) != a.base {
+						continue
+					}
+					if before(a.in, c) && before(c, b.in) {
+						moved = true
+					}
+				}
+			}
+			if moved {
+				return a.in, b.in
+			}
+		}
+	}
+	return nil, nil
+}
